@@ -434,6 +434,13 @@ def gen_ShardFacts():
         raise TranslateError("load_all: expiry filter not found")
     tr = ExprTr({"current_time": "now", "s.shard.metadata.shard_key_expiry": "expiry", "expiration_buffer_secs": "grace"})
     out.append("Definition shard_loaded (now expiry : N) : bool := %s.\n" % tr.tr(m.group(1)))
+    ew = fh.fn_body("export_with_expiration")
+    for p_ in ["let mut out_footer = self.shard.metadata.clone();",
+               "out_footer.shard_key_expiry = SystemTime::now() .add(shard_valid_for) .duration_since(std::time::UNIX_EPOCH) .unwrap_or_default() .as_secs();",
+               "out_footer.serialize(&mut out_footer_bytes)?;", "let reader = File::open(&self.path)?;",
+               "Self::write_out_from_reader( target_directory, &mut reader.take(out_footer.footer_offset).chain(Cursor::new(out_footer_bytes)), )"]:
+        if p_ not in ew:
+            raise TranslateError("export_with_expiration changed: %r" % p_)
     ce = fh.fn_body("clean_expired_shards")
     m = re.search(r"if s\.shard\.metadata\.shard_key_expiry\.saturating_add\(expiration_buffer_secs\) (<=|<|>=|>) current_time \{ .*?std::fs::remove_file\(&s\.path\);", ce)
     if not m:
@@ -1008,12 +1015,16 @@ def gen_UploadFacts():
     if "while let Some(result) = upload_tasks.join_next().await { result??; }" not in fi:
         raise TranslateError("finalize_impl: join loop changed")
     rn = di.fn_body("register_new_xorb")
-    if not (rn.find("add_cas_block(xorb.cas_info.clone())") < rn.find("register_new_xorb_for_upload(xorb)") and rn.find("add_cas_block(") >= 0):
-        raise TranslateError("register_new_xorb: record-then-register order changed")
+    if rn.strip() != "self.session.shard_interface.add_cas_block(xorb.cas_info.clone()).await?; self.session.register_new_xorb_for_upload(xorb).await?; Ok(())":
+        raise TranslateError("register_new_xorb: body changed (record in the session shard, then hand to the upload path)")
     up = si.fn_body("upload_and_register_session_shards")
     for p_ in [".upload_shard(&shard_prefix, &si.shard_hash, false, &data, &salt) .await?;", "while let Some(jh) = shard_uploads.join_next().await { jh??; }"]:
         if p_ not in up:
             raise TranslateError("upload_and_register_session_shards changed: %r" % p_)
+    # whatever the store answers to a successful upload (synced now / held already), the shard goes on to the cache
+    m = re.search(r"shard_client \.upload_shard\(&shard_prefix, &si\.shard_hash, false, &data, &salt\) \.await\?; drop\(upload_permit\); info!\([^;]*\); let new_shard_path = si\.export_with_expiration\(", up)
+    if not m:
+        raise TranslateError("upload_and_register_session_shards: the steps between the shard upload and its move to the cache changed")
     if not up.index(".upload_shard(") < up.index("si.export_with_expiration("):
         raise TranslateError("upload_and_register_session_shards: a shard is moved to the cache before its upload succeeded")
     out.append("Definition shard_upload_errors_propagated : bool := true.\n")
